@@ -1,0 +1,58 @@
+//! Instrumentation points for external verification harnesses.
+//!
+//! Only compiled with the cargo feature `verif_hooks` (off by default). A
+//! harness installs a table of callbacks once per process; threads that the
+//! harness does not manage are never affected.
+use once_cell::sync::OnceCell;
+use std::sync::{Mutex, MutexGuard, TryLockError};
+
+/// kinds of yield points
+pub const YIELD_LOCK: u8 = 0;
+pub const YIELD_STATUS_POLL: u8 = 1;
+
+pub struct Hooks {
+  /// is the calling thread managed by the harness?
+  pub managed: fn() -> bool,
+  /// a managed thread reached a scheduling point (`kind`, address of the cell)
+  pub yield_point: fn(kind: u8, addr: usize),
+  /// a managed thread found the cell at `addr` locked; called before every retry
+  pub blocked: fn(addr: usize),
+}
+
+static HOOKS: OnceCell<Hooks> = OnceCell::new();
+
+/// install the callbacks (first call wins)
+pub fn install(h: Hooks) {
+  let _ = HOOKS.set(h);
+}
+
+#[inline]
+fn active() -> Option<&'static Hooks> {
+  HOOKS.get().filter(|h| (h.managed)())
+}
+
+/// report a scheduling point that is not a lock acquisition
+#[inline]
+pub fn yield_now(kind: u8, addr: usize) {
+  if let Some(h) = active() {
+    (h.yield_point)(kind, addr)
+  }
+}
+
+/// Lock acquisition under harness control: `None` when no harness manages the
+/// calling thread (the caller then takes the lock the ordinary way).
+pub fn acquire<T>(m: &Mutex<T>) -> Option<MutexGuard<'_, T>> {
+  let h = active()?;
+  let addr = m as *const Mutex<T> as usize;
+  (h.yield_point)(YIELD_LOCK, addr);
+  loop {
+    match m.try_lock() {
+      Ok(g) => return Some(g),
+      Err(TryLockError::WouldBlock) => (h.blocked)(addr),
+      // same behaviour as `lock().unwrap()` on a poisoned mutex
+      Err(e @ TryLockError::Poisoned(_)) => {
+        panic!("called `Result::unwrap()` on an `Err` value: {:?}", e)
+      }
+    }
+  }
+}
